@@ -695,53 +695,284 @@ def _utf8_items(cp):
     return [0xF0 | (cp >> 18), 0x80 | ((cp >> 12) & 0x3F), 0x80 | ((cp >> 6) & 0x3F), 0x80 | (cp & 0x3F)]
 
 
-class SymDict(dict):
-    """dict whose lookups with symbolic keys are chains of equality tests over the keys
-    (each test is a decision).  Semantics-preserving replacement for small dispatch tables."""
+def is_symkey(x):
+    if isinstance(x, SymSeq):
+        return not x.concrete()
+    if isinstance(x, (SymInt, SymBool)):
+        return True
+    if isinstance(x, tuple):
+        return any(is_symkey(e) for e in x)
+    return False
 
-    def _find(self, k):
-        if isinstance(k, SymSeq) and not k.concrete():
-            for kk in dict.keys(self):
-                if _cmp_key(kk, k):
-                    return kk
-            return _MISSING
-        if isinstance(k, SymSeq):
-            k = k.to_concrete()
-        if isinstance(k, (SymInt, SymBool)):
-            for kk in dict.keys(self):
-                if isinstance(kk, int) and bool(kk == k):
-                    return kk
-            return _MISSING
-        # concrete key: symbolic keys may be stored too
-        try:
-            if dict.__contains__(self, k):
-                return k
-        except EngineError:
-            pass
-        return _MISSING
 
-    def __contains__(self, k):
-        return self._find(k) is not _MISSING
+def plain_key(x):
+    """hashable stand-in for keys that are SymSeq objects with concrete content"""
+    if isinstance(x, SymSeq):
+        return x.to_concrete()
+    if isinstance(x, tuple):
+        return tuple(plain_key(e) for e in x)
+    return x
 
-    def __getitem__(self, k):
-        kk = self._find(k)
-        if kk is _MISSING:
-            raise KeyError(k)
-        return dict.__getitem__(self, kk)
 
-    def get(self, k, default=None):
-        kk = self._find(k)
-        if kk is _MISSING:
-            return default
-        return dict.__getitem__(self, kk)
+def deep_eq(a, b):
+    """equality of keys as bool / SymBool (tuples element-wise)"""
+    if isinstance(a, tuple) or isinstance(b, tuple):
+        if not (isinstance(a, tuple) and isinstance(b, tuple)) or len(a) != len(b):
+            return False
+        return sym_and(*[deep_eq(x, y) for x, y in zip(a, b)])
+    try:
+        r = (a == b)
+    except EngineError:
+        raise
+    except Exception:
+        return False
+    if r is NotImplemented:
+        return False
+    return r
 
 
 _MISSING = object()
 
 
-def _cmp_key(kk, k):
-    try:
-        r = (k == kk)
-    except Exception:
+class SymDict(dict):
+    """dict that also accepts keys with symbolic content.  Concrete keys behave exactly like dict.
+    A symbolic key is compared with every stored key by equality (each comparison a decision)."""
+
+    def __init__(self, *a, **k):
+        dict.__init__(self)
+        self._sym = []          # [(key, value)] for keys with symbolic content
+        if a or k:
+            self.update(*a, **k)
+
+    def _find(self, k):
+        """-> ('n', native key) | ('s', index) | None"""
+        if is_symkey(k):
+            for kk in dict.keys(self):
+                if _maybe_eq(kk, k) and bool(truth(deep_eq(k, kk))):
+                    return ("n", kk)
+        else:
+            k = plain_key(k)
+            if dict.__contains__(self, k):
+                return ("n", k)
+        for i, (kk, _) in enumerate(self._sym):
+            if _maybe_eq(kk, k) and bool(truth(deep_eq(k, kk))):
+                return ("s", i)
+        return None
+
+    def __contains__(self, k):
+        return self._find(k) is not None
+
+    def __getitem__(self, k):
+        r = self._find(k)
+        if r is None:
+            if hasattr(type(self), "__missing__"):
+                return type(self).__missing__(self, k)
+            raise KeyError(k)
+        return dict.__getitem__(self, r[1]) if r[0] == "n" else self._sym[r[1]][1]
+
+    def get(self, k, default=None):
+        r = self._find(k)
+        if r is None:
+            return default
+        return dict.__getitem__(self, r[1]) if r[0] == "n" else self._sym[r[1]][1]
+
+    def __setitem__(self, k, v):
+        r = self._find(k)
+        if r is not None:
+            if r[0] == "n":
+                dict.__setitem__(self, r[1], v)
+            else:
+                self._sym[r[1]] = (self._sym[r[1]][0], v)
+            return
+        if is_symkey(k):
+            self._sym.append((k, v))
+        else:
+            dict.__setitem__(self, plain_key(k), v)
+
+    def __delitem__(self, k):
+        r = self._find(k)
+        if r is None:
+            raise KeyError(k)
+        if r[0] == "n":
+            dict.__delitem__(self, r[1])
+        else:
+            del self._sym[r[1]]
+
+    def pop(self, k, *d):
+        r = self._find(k)
+        if r is None:
+            if d:
+                return d[0]
+            raise KeyError(k)
+        v = self[k]
+        del self[k]
+        return v
+
+    def setdefault(self, k, d=None):
+        if k in self:
+            return self[k]
+        self[k] = d
+        return d
+
+    def update(self, *a, **kw):
+        for src in a:
+            if hasattr(src, "keys"):
+                for k in src.keys():
+                    self[k] = src[k]
+            else:
+                for k, v in src:
+                    self[k] = v
+        for k, v in kw.items():
+            self[k] = v
+
+    def __len__(self):
+        return dict.__len__(self) + len(self._sym)
+
+    def __bool__(self):
+        return len(self) > 0
+
+    def __iter__(self):
+        return iter(list(dict.keys(self)) + [k for k, _ in self._sym])
+
+    def keys(self):
+        return list(self.__iter__())
+
+    def values(self):
+        return list(dict.values(self)) + [v for _, v in self._sym]
+
+    def items(self):
+        return list(dict.items(self)) + list(self._sym)
+
+    def copy(self):
+        c = type(self)()
+        for k, v in self.items():
+            c[k] = v
+        return c
+
+    def clear(self):
+        dict.clear(self)
+        del self._sym[:]
+
+    def __eq__(self, o):
+        if not self._sym and not getattr(o, "_sym", None):
+            return dict.__eq__(self, o)
+        raise EngineError("comparison of dicts with symbolic keys")
+
+    def __ne__(self, o):
+        return not self.__eq__(o)
+
+    __hash__ = None
+
+    def __repr__(self):
+        return "SymDict(%s + %d symbolic keys)" % (dict.__repr__(self), len(self._sym))
+
+
+def _maybe_eq(a, b):
+    """cheap structural pre-filter: can a == b possibly hold?"""
+    if isinstance(a, tuple) or isinstance(b, tuple):
+        return isinstance(a, tuple) and isinstance(b, tuple) and len(a) == len(b) and all(_maybe_eq(x, y) for x, y in zip(a, b))
+    sa = isinstance(a, (bytes, bytearray, str, SymSeq))
+    sb = isinstance(b, (bytes, bytearray, str, SymSeq))
+    if sa != sb:
         return False
-    return bool(r)
+    if sa:
+        return len(a) == len(b)
+    return True
+
+
+class SymSet(set):
+    """set that also accepts elements with symbolic content (same idea as SymDict)"""
+
+    def __init__(self, it=()):
+        set.__init__(self)
+        self._sym = []
+        for x in it:
+            self.add(x)
+
+    def _has(self, x):
+        if is_symkey(x):
+            for e in set.__iter__(self):
+                if _maybe_eq(e, x) and bool(truth(deep_eq(x, e))):
+                    return True
+        else:
+            if set.__contains__(self, plain_key(x)):
+                return True
+        for e in self._sym:
+            if _maybe_eq(e, x) and bool(truth(deep_eq(x, e))):
+                return True
+        return False
+
+    def __contains__(self, x):
+        return self._has(x)
+
+    def add(self, x):
+        if self._has(x):
+            return
+        if is_symkey(x):
+            self._sym.append(x)
+        else:
+            set.add(self, plain_key(x))
+
+    def update(self, *its):
+        for it in its:
+            for x in it:
+                self.add(x)
+
+    def discard(self, x):
+        if is_symkey(x) or self._sym:
+            raise EngineError("SymSet.discard with symbolic content")
+        set.discard(self, plain_key(x))
+
+    def remove(self, x):
+        if is_symkey(x) or self._sym:
+            raise EngineError("SymSet.remove with symbolic content")
+        set.remove(self, plain_key(x))
+
+    def __len__(self):
+        return set.__len__(self) + len(self._sym)
+
+    def __bool__(self):
+        return len(self) > 0
+
+    def __iter__(self):
+        return iter(list(set.__iter__(self)) + list(self._sym))
+
+    def copy(self):
+        return SymSet(self)
+
+    def _nosym(self, o=None):
+        if self._sym or getattr(o, "_sym", None):
+            raise EngineError("set algebra on sets with symbolic elements")
+
+    def __or__(self, o):
+        self._nosym(o)
+        return SymSet(set.__or__(self, o))
+
+    def __and__(self, o):
+        self._nosym(o)
+        return SymSet(set.__and__(self, o))
+
+    def __sub__(self, o):
+        self._nosym(o)
+        return SymSet(set.__sub__(self, o))
+
+    def difference(self, *o):
+        self._nosym()
+        return SymSet(set.difference(self, *o))
+
+    def union(self, *o):
+        r = SymSet(self)
+        for x in o:
+            r.update(x)
+        return r
+
+    def intersection(self, *o):
+        self._nosym()
+        return SymSet(set.intersection(self, *o))
+
+    def pop(self):
+        if self._sym:
+            return self._sym.pop()
+        return set.pop(self)
+
+    __hash__ = None
